@@ -17,7 +17,7 @@ BOUNDS = {
 OUTSIDE = ["FFT values beyond the exact DFT sizes", "position correction (sobel gradients)", "mixed-state / multislice / simultaneous operator variants", "Fourier components that are exactly zero "
            "(the phase of 0 is conventional)"]
 STUBS = ["xp.fft.fft2/ifft2 -> exact DFT (lengths 1, 2)", "xp.angle -> atan2 model (atomic angle t with r cos t = re, r sin t = im)", "xp.exp(1j t) -> unit phasor", "xp.abs -> sqrt(re^2+im^2) (exact model)",
-         "np.round -> floor(x + 1/2) (differs from numpy's half-to-even only at exact .5)"]
+         "np.round -> exact round-half-to-even"]
 ASSUMPTIONS = ["alpha, beta in (0, 1]; probe and object windows not identically zero; every Fourier component of the exit wave non-zero for the phase clauses"]
 
 import abtem.reconstruct as R
@@ -192,7 +192,7 @@ def _window(ashape, wshape):
     def fn(c):
         cx = c.real("cx", -1, ashape[0] + 1); cy = c.real("cy", -1, ashape[1] + 1)
         idx = R._wrapped_indices_2D_window(sx.obj([cx, cy]), wshape, ashape)
-        rx = c.concretize(z3.ToInt(_real(_z(cx)) + z3.RealVal("1/2"))); ry = c.concretize(z3.ToInt(_real(_z(cy)) + z3.RealVal("1/2")))
+        rx = c.concretize(sx._round_half_even(_real(_z(cx)))); ry = c.concretize(sx._round_half_even(_real(_z(cy))))  # np.round: half to even
         wantx = [(rx - wshape[0] // 2 + i) % ashape[0] for i in range(wshape[0])]
         wanty = [(ry - wshape[1] // 2 + j) % ashape[1] for j in range(wshape[1])]
         c.prove("window.indices_are_centre_minus_half_plus_i_mod_shape", list(np.asarray(idx[0]).ravel()) == wantx and list(np.asarray(idx[1]).ravel()) == wanty, replay=None)
@@ -204,7 +204,7 @@ def cases(tier):
     out = []
     for shape in ((1, 1),) if q else ((1, 1), (1, 2)):
         out.append(Case(f"projection.pointwise.{shape[0]}x{shape[1]}", _projection(shape, exact=False), setup=_setup, timeout_ms=60000, budget_s=300 if q else 1800))
-    out.append(Case("projection.exact_dft.1x2", _projection((1, 2), exact=True), setup=_setup, timeout_ms=30000 if q else 120000, budget_s=300 if q else 1800))
+    out.append(Case("projection.exact_dft.1x2", _projection((1, 2), exact=True), setup=_setup, timeout_ms=20000 if q else 120000, budget_s=150 if q else 1800))
     for shape in ((1, 2), (2, 2)):
         out.append(Case(f"projection.zero_error.{shape[0]}x{shape[1]}", _sse(shape), setup=_setup, timeout_ms=60000, budget_s=300))
     for ps, os_ in (((2, 2), (3, 3)),) if q else (((2, 2), (3, 3)), ((2, 3), (4, 4))):
